@@ -1234,7 +1234,6 @@ func checkWorkerCountBounded(c *Ctx, rule string) {
 	c.check(n >= 8, rule, "worker-count uses", "?", fmt.Sprintf("%d uses", n), fmt.Sprintf("only %d uses found", n))
 }
 
-
 // checkFrameLimits (C08.O3/O4, shared with C07 as R10): in both frame readers the declared length is bounded above
 // and below on every path before the body is allocated or read, and a short body is an error.
 func checkFrameLimits(c *Ctx, w *zworld) {
